@@ -69,6 +69,7 @@ func runC12(r *core.Run) {
 		{"union", "SELECT k, b FROM t UNION SELECT k, b FROM u;"},
 		{"except", "SELECT k FROM t EXCEPT SELECT k FROM u;"},
 		{"analytic", "SELECT id, RANK() OVER (PARTITION BY k ORDER BY a) AS r, SUM(a) OVER (PARTITION BY b) AS s FROM t;"},
+		{"analytic-nested", "SELECT SUM(ROW_NUMBER() OVER (ORDER BY id)) OVER () AS s, MAX(RANK() OVER (ORDER BY k, id)) OVER () AS r, id, MIN(DENSE_RANK() OVER (ORDER BY k)) OVER () AS r2 FROM t;"},
 		// fractions that have no exact binary form: the result of a float sum depends on the order of the additions,
 		// so any per-worker partial sums show in the last digits
 		{"sum-frac", "SELECT SUM(f) AS s, AVG(f) AS m, VAR(f) AS v, STDEV(f) AS d, MEDIAN(f) AS md FROM t;"},
